@@ -175,6 +175,13 @@ def structured():
         for k in ks:
             out.append(b"\xff" * k + b"a\n" * ((L - k) // 2) + b"a" * ((L - k) % 2))
             out.append(b"a\n" * ((L - k) // 2) + b"a" * ((L - k) % 2) + b"\xff" * k)
+    # the same ratio edges with CRLF inside (a wrongly 'text' block would get normalised)
+    for L, ks in ((512, (152, 153, 154, 155, 158, 159)), (13, (3, 4, 5)), (10, (2, 3, 4)), (100, (29, 30, 31)),
+                  (200, (59, 60, 61, 62))):
+        for k in ks:
+            body = (b"a\r\n" * L)[: L - k]
+            out.append(b"\xff" * k + body)
+            out.append(body + b"\xff" * k)
     out.append(b"a" * 511 + b"\x00")
     out.append(b"a" * 512 + b"\x00" + b"\n")
     out.append(b"\n" * 600)
